@@ -71,6 +71,14 @@ class QWorld:
 				write_fasta(p, self.w.queries[qi]['contigs'], gz=gz)
 				f = dict(path=p, rel=rel, label='collide', qi=qi)
 				self.files.append(f); self.collide.append(f)
+		# symbolic links: the row label is derived from the name the user gave (the link), the content from its target
+		for f in list(self.files[:2]):
+			ln = self.qdir / f'link_to_{len(self.files)}.fna'
+			try:
+				os.symlink(f['path'], ln)
+				self.files.append(dict(path=ln, rel=ln.name, label=_cli.expected_label(ln.name), qi=f['qi']))
+			except OSError:
+				pass
 		# a second file with the same label as an existing one (duplicate labels)
 		f0 = self.files[0]
 		p = self.qdir / 'sub' / os.path.basename(f0['path']) if f0['path'].parent == self.qdir else self.qdir / os.path.basename(f0['path'])
@@ -176,7 +184,7 @@ def run_batch(sh, ctx):
 						ctx.violation('row-count', f'alone run gave {len(rows)} rows', dict(file=str(f['path'])))
 		# ---- batches ---------------------------------------------------------------------------------------------
 		for ci in range(sh['ncmds']):
-			nb = rng.choice([1, 2, 3, 5, 8, 15, 30])
+			nb = rng.choice([1, 2, 3, 5, 8, 15, 30] * 3 + [70])
 			batch = [rng.choice(qw.files) for _ in range(nb)] if rng.random() < 0.5 else rng.sample(qw.files, min(nb, len(qw.files)))
 			if qw.collide and rng.random() < 0.35:
 				batch = batch + rng.sample(qw.collide, rng.randint(2, len(qw.collide)))
